@@ -96,6 +96,7 @@ func (e *Exec) resetPath(prefix []Decision) {
 	e.locCell = nil
 	e.pcDirty = false
 	e.known = map[string]bool{}
+	e.tables = map[*Value]string{}
 	e.pools = map[*Value][]Value{}
 	e.roundings = nil
 	e.defCache = map[string]string{}
